@@ -359,6 +359,7 @@ class WorldBase:
         self.mtoks = []             # per harness token: the model tokens it stands for
         self.start_avail = 0        # when the current call was made: arrived (append+set done) and unreturned
         self.start_flag = False     # ... and the state of the input_event flag
+        self.ended_rd = None        # `ended` when the current call last read `self.connected` (thread world)
 
     def _note_start(self):
         self.start_avail = max(0, self.completed - self.returned)   # (an event can be returned before its set())
@@ -385,7 +386,8 @@ class WorldBase:
     def _record(self, kind, value):
         o = {'op': self.cur_op, 'kind': kind, 'value': value, 'completed': self.completed,
              'invoked': self.invoked, 'returned': self.returned, 'ended': self.ended,
-             'waiting_on': self.timeout_on, 'avail_start': self.start_avail, 'flag_start': self.start_flag}
+             'waiting_on': self.timeout_on, 'avail_start': self.start_avail, 'flag_start': self.start_flag,
+             'ended_rd': self.ended_rd}
         self.outcomes.append(o)
         self._judge(o)
         if kind == 'ret' and self.cur_op in RECV_OPS:
@@ -413,11 +415,15 @@ class WorldBase:
                                              'on %s' % (RECV_TIMEOUT[op], o['completed'] - o['returned'],
                                                         o['waiting_on'])))
             elif kind == 'exc' and v == 'DisconnectedError':
-                if not o['ended']:
+                # "ended for good": receive() reads `connected` and then tests the buffer (two accesses), and the
+                # schedules also start connect handlers after __disconnect_final, between the two included: the
+                # connection must have ended for good now or when this call read `connected`
+                # (C19.disconnected_after_drain: endedRd; asyncio: one block, ended_rd stays None)
+                if not (o['ended'] or o['ended_rd']):
                     self.oracle.append((None, 'receive() raised DisconnectedError but the connection has not '
                                               'ended for good (handlers so far: %r)' % (self.conn_started,)))
                 elif o['completed'] > o['returned']:
-                    self.oracle.append(('disconnected-before-drain',
+                    self.oracle.append((None,
                                         'receive() raised DisconnectedError while %d arrived event(s) had not '
                                         'been returned' % (o['completed'] - o['returned'])))
             else:
@@ -488,7 +494,9 @@ class ThreadWorld(WorldBase):
             """adds nothing but the pre-emption point on `connected`"""
             @property
             def connected(self):
-                sched.pre('conn.get')
+                a = sched.pre('conn.get')
+                if a is not None and a.name == 'consumer':
+                    world.ended_rd = world.ended
                 return self.__dict__['_connected']
 
             @connected.setter
@@ -544,6 +552,7 @@ class ThreadWorld(WorldBase):
             op = self.next_consumer_op
             self.cur_op = op
             self.timeout_on = None
+            self.ended_rd = None
             self.sent_before = len(self.client.sent)
             n = len(self.outcomes)
             try:
